@@ -2,7 +2,8 @@
    Property theorems only; proofs in PyZX/PyZXLemmas.v and PyZX/ZXSemLemmas.v. *)
 From Coq Require Import List ZArith QArith Bool.
 Import ListNotations.
-Require Import DV.Common.Base DV.Core.Diagram DV.Core.WF DV.PyZX.PyZX DV.PyZX.PyZXLemmas.
+Require Import DV.Common.Base DV.Core.Diagram DV.Core.WF DV.PyZX.PyZX DV.PyZX.PyZXLemmas
+  DV.PyZX.ZXSem DV.PyZX.ZXSemLemmas.
 Open Scope Z_scope.
 
 (* export: one vertex per input wire, spider and output wire, numbered in that
@@ -19,6 +20,15 @@ Theorem to_pyzx_shape : forall dom cod bs g,
   edges_ok (length (gverts g)) (gedges g).
 Proof. exact PyZXLemmas.to_pyzx_shape. Qed.
 Print Assumptions to_pyzx_shape.
+
+(* the edges of the exported graph are exactly the wires of the diagram (wire_trace:
+   an independent specification that follows each wire and COUNTS the H boxes on it),
+   in the order in which they end; an edge is HADAMARD iff that count is odd *)
+Theorem to_pyzx_hadamard_parity : forall dom cod bs g,
+  to_pyzx dom cod bs = Ok g ->
+  exists ws, wire_trace dom cod bs = Some ws /\ gedges g = map edge_of ws.
+Proof. exact PyZXLemmas.to_pyzx_hadamard_parity. Qed.
+Print Assumptions to_pyzx_hadamard_parity.
 
 (* import: whatever from_pyzx returns is a well-typed diagram (C01's wf) ... *)
 Theorem from_pyzx_wf : forall fix_a fix_b g d, from_pyzx fix_a fix_b g = Ok d -> wf d.
@@ -51,3 +61,49 @@ Proof.
     [left; now apply missing_boundary_spec|right; now apply duplicate_boundary_spec].
 Qed.
 Print Assumptions from_pyzx_refuses_bad_boundaries.
+
+(* ------------------------------------------------------------------ semantics
+   The full statements are ZXSem.to_pyzx_sound_stmt, ZXSem.from_pyzx_sound_stmt and
+   ZXSem.from_pyzx_total_stmt (Definitions, never asserted).  What is proved: *)
+
+(* graph_sem (to_pyzx d) = zx_sem d on the listed instances, computed in Cyc8 *)
+Theorem to_pyzx_sound_partial : forallb export_ok sem_examples = true.
+Proof. exact ZXSemLemmas.to_pyzx_sound_partial. Qed.
+Print Assumptions to_pyzx_sound_partial.
+
+(* the code as it is violates from_pyzx_sound_stmt (Cyc8 instance): finding F15 *)
+Theorem from_pyzx_sound_refuted_cyc8_F15a : unsound_on false false ex_f15a.
+Proof. exact ZXSemLemmas.from_pyzx_sound_refuted_cyc8_F15a. Qed.
+Print Assumptions from_pyzx_sound_refuted_cyc8_F15a.
+
+Theorem from_pyzx_sound_refuted_cyc8_F15b : unsound_on false false ex_f15b.
+Proof. exact ZXSemLemmas.from_pyzx_sound_refuted_cyc8_F15b. Qed.
+Print Assumptions from_pyzx_sound_refuted_cyc8_F15b.
+
+Theorem from_pyzx_sound_refuted_cyc8_F15b_plain : unsound_on false false ex_f15b_plain.
+Proof. exact ZXSemLemmas.from_pyzx_sound_refuted_cyc8_F15b_plain. Qed.
+Print Assumptions from_pyzx_sound_refuted_cyc8_F15b_plain.
+
+(* with both proposed fixes the three reproducers are imported correctly, and each
+   switch repairs exactly its own sub-case *)
+Theorem from_pyzx_fixed_on_witnesses :
+  forallb (roundtrip_ok true true) [ex_f15b; ex_f15b_plain; ex_f15a] = true.
+Proof. exact ZXSemLemmas.from_pyzx_fixed_on_witnesses. Qed.
+Print Assumptions from_pyzx_fixed_on_witnesses.
+
+Theorem switches_are_independent :
+  roundtrip_ok true false ex_f15a = true /\ roundtrip_ok false true ex_f15a = false /\
+  roundtrip_ok false true ex_f15b = true /\ roundtrip_ok true false ex_f15b = false /\
+  roundtrip_ok false true ex_f15b_plain = true.
+Proof. exact ZXSemLemmas.switches_are_independent. Qed.
+Print Assumptions switches_are_independent.
+
+(* the import statement holds, in Cyc8, on five round trips that meet neither trigger *)
+Theorem from_pyzx_sound_partial :
+  forallb (roundtrip_ok false false)
+    [ (n0, n0, []); (n2, n2, [(BHad, n0); (BSwap, n0)]);
+      (n2, n2, [(BSpider SZ 1 2 0, n0); (BSpider SX 2 1 0, n1)]);
+      (n2, n2, [(BSpider SZ 1 2 0, n0); (BHad, n1); (BSpider SZ 2 1 (1 # 2), n1)]);
+      (n1, n1, [(BSpider SZ 1 1 (9 # 8), n0); (BSpider SX 1 1 (-3 # 8), n0)]) ] = true.
+Proof. exact ZXSemLemmas.from_pyzx_sound_partial. Qed.
+Print Assumptions from_pyzx_sound_partial.
